@@ -129,3 +129,52 @@ From IocVerif Require Import Proofs.FactoryXInv.
 Theorem c02_never_self_extended : forall s x o st,
   run_xt repaired s x = (o, Ok st) -> forall h k v, k < 100 -> In v (field_of st h k) -> v <> VOrig h.
 Proof. intros s x o st H. exact (run_xt_never_self repaired s x o st eq_refl H). Qed.
+
+(* cycles resolve under the extended semantics too: a satisfiable graph without substitution and without faults starts
+   successfully, whichever registered components the Init methods look up in the middle of their own creation and
+   whichever components are short-circuited (no component has more than 100 points; the Init methods of the
+   post-processor components issue no lookups) *)
+From Coq Require Import Lia.
+From IocVerif Require Import Proofs.FactoryXLife Proofs.FactoryXNoPanic Proofs.FactoryXLiveness.
+Theorem c02_cycles_succeed_extended : forall s x,
+  small_points s ->
+  no_subst_b (normalise repaired s) = true -> no_faults_b (normalise repaired s) = true ->
+  satisfiable_b repaired (normalise repaired s) = true ->
+  procs_pointless_b (normalise repaired s) = true -> procs_quiet_b (normalise repaired s) x = true ->
+  initgets_defined_b (normalise repaired s) x = true -> stages_ok_b (normalise repaired s) = true ->
+  exists o st, run_xt repaired s x = (o, Ok st).
+Proof.
+  intros s x Hsm Hns Hnf Hsat Hpp Hpq Hxd Hso.
+  exact (run_core_xt_succeeds repaired (normalise repaired s) x eq_refl eq_refl eq_refl eq_refl Hsm Hns Hnf Hsat Hpp Hpq Hxd Hso).
+Qed.
+
+(* non-vacuity, with the five built-in stages: the two-cycle 5 <-> 6 where 6's Init also looks 5 (in creation: the
+   early reference) and 8 up, and processor 7 short-circuits 8 *)
+Definition ex_scn2x : scenario :=
+  mkScn [ mkComp 100 [] false None false true [] [] [] None None None false (Some (Prio 16, PBuiltin BProps));
+          mkComp 101 [] false None false true [] [] [] None None None false (Some (Prio 16, PBuiltin BValue));
+          mkComp 102 [] false None false true [] [] [] None None None false (Some (Ord 2, PBuiltin BWire));
+          mkComp 103 [] false None false true [] [] [] None None None false (Some (Ord 2, PBuiltin BFunc));
+          mkComp 104 [] false None false true [] [] [] None None None false (Some (Ord 4, PBuiltin BFurther));
+          mkComp 0 [] false None false false [] [mkPoint false (TPtr 1) SByType None true] [] None None None false None;
+          mkComp 1 [] false None false false [] [mkPoint false (TPtr 0) SByType None true] [] None (Some false) None false None;
+          mkComp 7 [] false None false false [] [] [] None None None false (Some (Unord, PUser [] []));
+          mkComp 2 [] false None false false [] [] [] None None None false None ]
+        [] false None [].
+Definition ex_x2 : extras := mkX [(7, 8)] [(6, [5; 8])].
+
+Example c02_example_extended :
+  small_points ex_scn2x
+  /\ no_subst_b (normalise repaired ex_scn2x) = true /\ no_faults_b (normalise repaired ex_scn2x) = true
+  /\ satisfiable_b repaired (normalise repaired ex_scn2x) = true /\ procs_pointless_b (normalise repaired ex_scn2x) = true
+  /\ procs_quiet_b (normalise repaired ex_scn2x) ex_x2 = true /\ initgets_defined_b (normalise repaired ex_scn2x) ex_x2 = true
+  /\ stages_ok_b (normalise repaired ex_scn2x) = true
+  /\ match snd (run_xt repaired ex_scn2x ex_x2) with
+     | Ok st => field_of st 6 100 = [VOrig 5] /\ field_of st 6 101 = [VOrig 8] /\ field_of st 5 0 = [VOrig 6] /\ field_of st 6 0 = [VOrig 5]
+     | Fail _ _ => False
+     end.
+Proof.
+  split.
+  - intros n c H. do 9 (destruct n as [|n]; [cbn in H; inversion H; subst; cbn; lia|]). destruct n; discriminate.
+  - vm_compute. repeat split.
+Qed.
